@@ -20,7 +20,7 @@ import (
 //
 // Every configuration is built alone (empty process-wide cache) and then all together in order;
 // the probe answers (and construction errors / panics) must be identical.
-var memoStrings = []string{"abc", "ab", "x", "1", "a.c", "abc|x", "[ab]c", "list", "name", "(?i)abc", "^X-Tok", "Abc", "^abc"}
+var memoStrings = []string{"abc", "ab", "x", "1", "a.c", "abc|x", "[ab]c", "list", "name", "(?i)abc", "^X-Tok", "Abc", "^abc", "müller", "MÜLLER"}
 
 func memoConfig(role, s, variant string) (string, coraza.WAFConfig) {
 	cfg := coraza.NewWAFConfig()
@@ -34,10 +34,10 @@ func memoConfig(role, s, variant string) (string, coraza.WAFConfig) {
 		d = fmt.Sprintf(`SecRule REQUEST_HEADERS:/%s/ "@unconditionalMatch" "id:1,phase:1,deny"`, s)
 	case "ds":
 		// variants 2/3: the same words, a phrase boundary written as a blank or as a line break
-		content := map[string]string{"0": "abc\nx", "1": "zzz\n1", "2": "ab c\nx", "3": "ab\nc\nx"}[variant]
+		content := map[string]string{"0": "abc\nx", "1": "zzz\n1", "2": "ab c\nx", "3": "ab\nc\nx", "4": "Abc\nMÜLLER", "5": "abc\nmüller"}[variant]
 		d = fmt.Sprintf("SecDataset %s `\n%s\n`\nSecRule ARGS_GET:q \"@pmFromDataset %s\" \"id:1,phase:1,deny\"", s, content, s)
 	case "pmf":
-		content := map[string]string{"0": "abc\nx\n", "1": "zzz\n1\n", "2": "ab c\nx\n", "3": "ab\nc\nx\n"}[variant]
+		content := map[string]string{"0": "abc\nx\n", "1": "zzz\n1\n", "2": "ab c\nx\n", "3": "ab\nc\nx\n", "4": "Abc\nMÜLLER\n", "5": "abc\nmüller\n"}[variant]
 		cfg = cfg.WithRootFS(fstest.MapFS{s + ".data": &fstest.MapFile{Data: []byte(content)}})
 		d = fmt.Sprintf(`SecRule ARGS_GET:q "@pmFromFile %s.data" "id:1,phase:1,deny"`, s)
 	case "vschema":
@@ -228,16 +228,25 @@ func init() {
 			// few distinct strings so that the same text shows up in different roles
 			pool := []string{memoStrings[c.r.Intn(len(memoStrings))], memoStrings[c.r.Intn(len(memoStrings))]}
 			var cfgs []string
+			same := ""
+			if c.r.Chance(0.5) {
+				// a history of one role: the entries most likely to meet in the cache are those of one operator
+				same = roles[c.r.Intn(len(roles))]
+			}
 			for j := 0; j < n; j++ {
 				role := roles[c.r.Intn(len(roles))]
+				if same != "" {
+					role = same
+				}
 				variant := c.r.Pick("0", "1")
-				if (role == "ds" || role == "pmf") && c.r.Chance(0.5) {
-					variant = c.r.Pick("2", "3")
+				if (role == "ds" || role == "pmf") && c.r.Chance(0.6) {
+					// 2/3: the same words with another phrase boundary; 4/5: the same phrases in another letter case, ASCII and not
+					variant = c.r.Pick("2", "3", "4", "5")
 				}
 				cfgs = append(cfgs, role+":"+gen.Field(pool[c.r.Intn(2)])+":"+variant)
 				c.stats.Hit("role:" + role)
 			}
-			probes := []string{gen.Field("abc"), gen.Field("x"), gen.Field("zzz"), gen.Field("1"), gen.Field(pool[0]), gen.Field("ABC"), gen.Field("c"), gen.Field("ab c"), gen.Field(`{"a":1}`), gen.Field(`{"b":1}`)}
+			probes := []string{gen.Field("abc"), gen.Field("x"), gen.Field("zzz"), gen.Field("1"), gen.Field(pool[0]), gen.Field("ABC"), gen.Field("c"), gen.Field("ab c"), gen.Field(`{"a":1}`), gen.Field(`{"b":1}`), gen.Field("müller"), gen.Field("MÜLLER")}
 			obs := c.run("memo", strings.Join(cfgs, ";"), strings.Join(probes, ","))
 			if strings.Contains(obs, "1") {
 				c.stats.Hit("some-probe-blocked")
